@@ -1,6 +1,6 @@
 // Ammo-file cases of hC10: from the bytes of an ammo file to the reported samples.
 //
-//	ammo <format uri|uripost|raw|json> <enabled> <depth> <notagonly> <k> <finalNL> <file hex> <tokens...>
+//	ammo <format uri|uripost|raw|json> <enabled> <depth> <notagonly> <k>[x<g>] <finalNL> <file hex> <tokens...>
 //
 // The file (rendered from the tokens; line tokens in the syntax of a07ammo.Line.Token, json
 // entities in that of a07ammo.EntityToken) is given to the real provider
@@ -8,6 +8,8 @@
 // acquired one after another, each is shot by the real HTTP gun (NewHTTP1Gun, auto-tag settings
 // of the case) at the in-process target and released.  The status the target answers is chosen
 // by the X-Verif header the FILE sets (header lines / request bytes / entity headers).
+// With x<g> (g > 1) the k acquisitions are made by g concurrently shooting instances (each its own
+// gun, one provider, one aggregator): the samples are then printed sorted, the ids in increasing order.
 // -> n=<samples> tags:proto:net ... late=<k> ids=<id,id,...> end=<more|closed|invalid|newerr|hang>
 package main
 
@@ -15,7 +17,9 @@ import (
 	"context"
 	"encoding/json"
 	"fmt"
+	"sort"
 	"strings"
+	"sync"
 	"time"
 
 	"github.com/spf13/afero"
@@ -23,6 +27,7 @@ import (
 	provhttp "github.com/yandex/pandora/components/providers/http"
 	provcfg "github.com/yandex/pandora/components/providers/http/config"
 	"github.com/yandex/pandora/core"
+	"github.com/yandex/pandora/core/aggregator/netsample"
 	"go.uber.org/zap"
 
 	"verifharness/internal/a07ammo"
@@ -35,7 +40,6 @@ func runAmmo(f []string) string {
 	}
 	format := f[1]
 	k := 0
-	fmt.Sscanf(f[5], "%d", &k)
 	file := vh.UnHex(f[7])
 	fs := afero.NewMemMapFs()
 	if err := afero.WriteFile(fs, "ammo", file, 0o644); err != nil {
@@ -55,65 +59,135 @@ func runAmmo(f []string) string {
 	cfg.AutoTag.Enabled = f[2] == "1"
 	fmt.Sscanf(f[3], "%d", &cfg.AutoTag.URIElements)
 	cfg.AutoTag.NoTagOnly = f[4] == "1"
-	g := phttp.NewHTTP1Gun(cfg, zap.NewNop())
-	ag := &recAggr{}
+	kf, gf, _ := strings.Cut(f[5], "x")
+	fmt.Sscanf(kf, "%d", &k)
+	inst := 1
+	if gf != "" {
+		fmt.Sscanf(gf, "%d", &inst)
+	}
+	ag := &lockedAggr{}
 	ctx, cancel := context.WithCancel(context.Background())
 	defer cancel()
-	if err := g.Bind(ag, core.GunDeps{Ctx: ctx, Log: zap.NewNop()}); err != nil {
-		return "binderr"
-	}
-	defer g.Close()
 	go func() { _ = prov.Run(ctx, core.ProviderDeps{Log: zap.NewNop()}) }()
+	tokens := make(chan struct{}, k)
+	for i := 0; i < k; i++ {
+		tokens <- struct{}{}
+	}
+	close(tokens)
+	var mu sync.Mutex
 	end := "more"
+	setEnd := func(e string) {
+		mu.Lock()
+		if end == "more" {
+			end = e
+		}
+		mu.Unlock()
+	}
+	getEnd := func() string { mu.Lock(); defer mu.Unlock(); return end }
 	type acq struct {
 		a  core.Ammo
 		ok bool
 	}
-	for i := 0; i < k && end == "more"; i++ {
-		ch := make(chan acq, 1)
-		go func() {
-			defer func() {
-				if recover() != nil {
-					ch <- acq{}
-				}
-			}()
-			a, ok := prov.Acquire()
-			ch <- acq{a, ok}
-		}()
-		select {
-		case r := <-ch:
-			switch {
-			case !r.ok && r.a != nil:
-				end = "invalid"
-			case !r.ok:
-				end = "closed"
-			default:
-				am, isHTTP := r.a.(phttp.Ammo)
-				if !isHTTP {
-					return "not-http-ammo"
-				}
-				done := make(chan struct{})
-				go func() { defer close(done); g.Shoot(am) }()
-				select {
-				case <-done:
-				case <-time.After(5 * time.Second):
-					return "hang"
-				}
-				prov.Release(r.a)
+	instance := func() {
+		g := phttp.NewHTTP1Gun(cfg, zap.NewNop())
+		if err := g.Bind(ag, core.GunDeps{Ctx: ctx, Log: zap.NewNop()}); err != nil {
+			setEnd("binderr")
+			return
+		}
+		defer g.Close()
+		for range tokens {
+			if getEnd() != "more" {
+				return
 			}
-		case <-time.After(4 * time.Second):
-			end = "hang"
+			ch := make(chan acq, 1)
+			go func() {
+				defer func() {
+					if recover() != nil {
+						ch <- acq{}
+					}
+				}()
+				a, ok := prov.Acquire()
+				ch <- acq{a, ok}
+			}()
+			select {
+			case r := <-ch:
+				switch {
+				case !r.ok && r.a != nil:
+					setEnd("invalid")
+				case !r.ok:
+					setEnd("closed")
+				default:
+					am, isHTTP := r.a.(phttp.Ammo)
+					if !isHTTP {
+						setEnd("not-http-ammo")
+						return
+					}
+					done := make(chan struct{})
+					go func() { defer close(done); g.Shoot(am) }()
+					select {
+					case <-done:
+					case <-time.After(5 * time.Second):
+						setEnd("hang")
+						return
+					}
+					prov.Release(r.a)
+				}
+			case <-time.After(4 * time.Second):
+				setEnd("hang")
+			}
 		}
 	}
-	var ids []string
+	var wg sync.WaitGroup
+	for i := 0; i < inst; i++ {
+		wg.Add(1)
+		go func() { defer wg.Done(); instance() }()
+	}
+	wg.Wait()
+	ag.mu.Lock()
+	defer ag.mu.Unlock()
+	if inst > 1 {
+		// canonical order: by printed sample, ids numerically
+		idx := make([]int, len(ag.snaps))
+		for i := range idx {
+			idx[i] = i
+		}
+		pr := func(s snap) string { return fmt.Sprintf("%s:%d:%s", vh.HexS(s.tags), s.proto, s.net) }
+		sort.SliceStable(idx, func(a, b int) bool { return pr(ag.snaps[idx[a]]) < pr(ag.snaps[idx[b]]) })
+		ss := make([]*netsample.Sample, len(idx))
+		sn := make([]snap, len(idx))
+		for i, j := range idx {
+			ss[i], sn[i] = ag.samples[j], ag.snaps[j]
+		}
+		ag.samples, ag.snaps = ss, sn
+	}
+	idn := make([]uint64, 0, len(ag.snaps))
 	for _, s := range ag.snaps {
-		ids = append(ids, fmt.Sprint(s.id))
+		idn = append(idn, s.id)
+	}
+	if inst > 1 {
+		sort.Slice(idn, func(a, b int) bool { return idn[a] < idn[b] })
+	}
+	var ids []string
+	for _, v := range idn {
+		ids = append(ids, fmt.Sprint(v))
 	}
 	idl := "-"
 	if len(ids) > 0 {
 		idl = strings.Join(ids, ",")
 	}
-	return fmt.Sprintf("%s ids=%s end=%s", samplesLine(ag.samples, ag.snaps), idl, end)
+	return fmt.Sprintf("%s ids=%s end=%s", samplesLine(ag.samples, ag.snaps), idl, getEnd())
+}
+
+// lockedAggr: recAggr shared by concurrently shooting instances.
+type lockedAggr struct {
+	mu sync.Mutex
+	recAggr
+}
+
+func (l *lockedAggr) Report(s *netsample.Sample) {
+	l.mu.Lock()
+	l.recAggr.Report(s)
+	l.mu.Unlock()
 }
 
 // ---- generator: structured files; what varies is what the tag clause of the property is about ----
@@ -202,8 +276,13 @@ func genAmmoCase(r *vh.Rand, format string) string {
 			toks = append(toks, l.Token())
 		}
 	}
-	return fmt.Sprintf("ammo %s %s %d %s %d %s %s %s", format, vh.B(r.Chance(1, 2)), r.Intn(3), vh.B(r.Bool()),
-		passes*n+1, vh.B(fin), vh.Hex(file), strings.Join(toks, " "))
+	kf := fmt.Sprint(passes*n + 1)
+	if r.Chance(1, 3) {
+		// concurrently shooting instances; more passes so that they overlap
+		kf = fmt.Sprintf("%dx%d", r.Range(2, 6)*n+1, r.Range(2, 8))
+	}
+	return fmt.Sprintf("ammo %s %s %d %s %s %s %s %s", format, vh.B(r.Chance(1, 2)), r.Intn(3), vh.B(r.Bool()),
+		kf, vh.B(fin), vh.Hex(file), strings.Join(toks, " "))
 }
 
 func genAmmo(r *vh.Rand, tier string) []string {
